@@ -366,10 +366,17 @@ fn pick_timeout() -> u64 {
     [1 * MS, 10 * MS, 100 * MS, 250 * MS, 1000 * MS, 5000 * MS, 60_000 * MS][choose(7) as usize]
 }
 
+pub const RTU_PATH: &str = "/dev/ttySIM1";
+
+enum Link {
+    Tcp { addr: SocketAddr, peer: Option<PeerEnd> },
+    Rtu { open: bool, opens_seen: usize, closes_seen: usize },
+}
+
 struct Lock {
     rig: ClientRig,
     model: ClientModel,
-    peer: Option<PeerEnd>,
+    link: Link,
     expected_wire: Vec<u8>,
     got_wire: Vec<u8>,
     seen_states: usize,
@@ -383,6 +390,87 @@ struct Lock {
 }
 
 impl Lock {
+    fn is_rtu(&self) -> bool {
+        matches!(self.link, Link::Rtu { .. })
+    }
+    fn send(&self, data: &[u8]) {
+        match &self.link {
+            Link::Tcp { peer, .. } => peer.as_ref().expect("model connected => peer").write(data),
+            Link::Rtu { .. } => simtokio::serial::line_write(RTU_PATH, data),
+        }
+    }
+    fn mk_frame(&self, tx: u16, unit: u8, pdu: &[u8]) -> Vec<u8> {
+        if self.is_rtu() {
+            crate::model::frame::rtu_frame(unit, pdu)
+        } else {
+            mbap_frame(tx, unit, pdu)
+        }
+    }
+    fn take_wire(&self) -> Vec<u8> {
+        match &self.link {
+            Link::Tcp { peer, .. } => peer.as_ref().map(|p| p.take_received()).unwrap_or_default(),
+            Link::Rtu { .. } => simtokio::serial::line_take(RTU_PATH),
+        }
+    }
+    fn attempt_times(&self) -> Vec<u64> {
+        match &self.link {
+            Link::Tcp { .. } => net::attempts().iter().map(|a| a.at).collect(),
+            Link::Rtu { .. } => simtokio::serial::opens(RTU_PATH).iter().map(|a| a.at).collect(),
+        }
+    }
+    /// the model says a connection was established: adopt it. false = there is none
+    fn conn_open(&mut self) -> bool {
+        match &mut self.link {
+            Link::Tcp { addr, peer } => match net::stub_accept(*addr) {
+                Some(p) => {
+                    *peer = Some(p);
+                    true
+                }
+                None => false,
+            },
+            Link::Rtu { open, opens_seen, .. } => {
+                *open = true;
+                let ok = simtokio::serial::opens(RTU_PATH).iter().filter(|o| o.ok).count();
+                if ok > *opens_seen {
+                    *opens_seen += 1;
+                    true
+                } else {
+                    false
+                }
+            }
+        }
+    }
+    /// the model says the connection was closed by the client: true if it really is
+    fn conn_closed_ok(&mut self) -> bool {
+        match &mut self.link {
+            Link::Tcp { peer, .. } => match peer.take() {
+                Some(p) => p.remote_closed(),
+                None => true,
+            },
+            Link::Rtu { open, closes_seen, .. } => {
+                *open = false;
+                if simtokio::serial::closes(RTU_PATH).len() > *closes_seen {
+                    *closes_seen += 1;
+                    true
+                } else {
+                    false
+                }
+            }
+        }
+    }
+    fn unexpectedly_closed(&self) -> bool {
+        match &self.link {
+            Link::Tcp { peer, .. } => peer.as_ref().map(|p| p.remote_closed()).unwrap_or(false),
+            Link::Rtu { closes_seen, .. } => simtokio::serial::closes(RTU_PATH).len() > *closes_seen,
+        }
+    }
+    fn extra_connection(&self) -> bool {
+        match &self.link {
+            Link::Tcp { addr, .. } => net::stub_accept(*addr).is_some(),
+            Link::Rtu { opens_seen, .. } => simtokio::serial::opens(RTU_PATH).iter().filter(|o| o.ok).count() > *opens_seen,
+        }
+    }
+
     /// compare everything observable since the last action; returns false on violation
     fn compare(&mut self, out: &mut RunOut, action: &str) -> bool {
         let effects: Vec<Effect> = self.model.effects[self.eff_pos..].to_vec();
@@ -403,59 +491,61 @@ impl Lock {
                     self.frames_tx += 1;
                 }
                 Effect::ConnOpened(_) => {
-                    if !self.check_wire(out, action) {
+                    // (on the serial line all bytes share one pipe: compared cumulatively)
+                    if !self.is_rtu() && !self.check_wire(out, action) {
                         return false;
                     }
-                    match net::stub_accept(self.rig.addr) {
-                        Some(p) => {
-                            self.peer = Some(p);
+                    if self.conn_open() {
+                        if !self.is_rtu() {
                             self.expected_wire.clear();
                             self.got_wire.clear();
                         }
-                        None => {
-                            out.violate("C13", "no_connection_established", format!("after `{}` the model expects an established connection, none was made", action));
-                            return false;
-                        }
+                    } else {
+                        out.violate("C13", "no_connection_established", format!("after `{}` the model expects an established connection, none was made", action));
+                        return false;
                     }
                 }
                 Effect::ConnClosed(_) => {
-                    if !self.check_wire(out, action) {
+                    if !self.is_rtu() && !self.check_wire(out, action) {
                         return false;
                     }
-                    match self.peer.take() {
-                        Some(p) => {
-                            if !p.remote_closed() {
-                                out.violate(
-                                    "C13",
-                                    "connection_not_closed",
-                                    format!("after `{}` the connection must be closed by the client but is still open", action),
-                                );
-                                return false;
-                            }
-                        }
-                        None => {}
+                    if !self.conn_closed_ok() {
+                        out.violate(
+                            "C13",
+                            "connection_not_closed",
+                            format!("after `{}` the connection must be closed by the client but is still open", action),
+                        );
+                        return false;
                     }
-                    self.expected_wire.clear();
-                    self.got_wire.clear();
+                    if !self.is_rtu() {
+                        self.expected_wire.clear();
+                        self.got_wire.clear();
+                    }
                 }
             }
         }
         if !self.check_wire(out, action) {
             return false;
         }
-        if let Some(p) = &self.peer {
-            if p.remote_closed() {
-                out.violate("C13", "connection_closed_unexpectedly", format!("after `{}` the client closed the connection; the model keeps it open", action));
-                return false;
-            }
+        if self.unexpectedly_closed() {
+            out.violate("C13", "connection_closed_unexpectedly", format!("after `{}` the client closed the connection; the model keeps it open", action));
+            return false;
         }
-        if net::stub_accept(self.rig.addr).is_some() {
+        if self.extra_connection() {
             out.violate("C13", "unexpected_connection", format!("after `{}` the client opened a connection the model does not expect", action));
             return false;
         }
         // listener
         let got_states: Vec<(u64, MState)> = self.rig.states.lock().unwrap()[self.seen_states..].to_vec();
         self.seen_states += got_states.len();
+        if self.is_rtu() {
+            // PortState has a single Wait(d) state
+            for (_, s) in exp_states.iter_mut() {
+                if let MState::WaitAfterFailedConnect(d) = s {
+                    *s = MState::WaitAfterDisconnect(*d);
+                }
+            }
+        }
         if got_states != exp_states {
             let mut props = vec!["C13"];
             let wait = |v: &Vec<(u64, MState)>| -> Vec<(u64, MState)> {
@@ -526,8 +616,8 @@ impl Lock {
         }
         out.ops_checked += exp_comps.len() as u64;
         // connect attempts
-        let all = net::attempts();
-        let got_att: Vec<u64> = all[self.seen_attempts..].iter().map(|a| a.at).collect();
+        let all = self.attempt_times();
+        let got_att: Vec<u64> = all[self.seen_attempts..].to_vec();
         self.seen_attempts = all.len();
         if got_att != exp_attempts {
             let detail = format!("after `{}` (t={}): connect attempts at {:?}, model expects {:?}", action, now, got_att, exp_attempts);
@@ -548,8 +638,14 @@ impl Lock {
     }
 
     fn check_wire(&mut self, out: &mut RunOut, action: &str) -> bool {
-        if let Some(p) = &self.peer {
-            self.got_wire.extend(p.take_received());
+        let w = self.take_wire();
+        self.got_wire.extend(w);
+        if self.got_wire.len() > if self.is_rtu() { 256 } else { 260 } && self.got_wire.len() <= 300 && self.frames_tx <= 1 {
+            out.probe("long_frame_seen");
+        }
+        if self.is_rtu() && self.got_wire == self.expected_wire {
+            self.got_wire.clear();
+            self.expected_wire.clear();
         }
         if self.got_wire != self.expected_wire {
             let detail = format!(
@@ -585,6 +681,63 @@ fn lockstep_kernel_cfg() {
 /// Lock-step client scenario. variant 0: general; 1: transaction-id wrap (66 000 requests);
 /// 2: reply-grammar focus (C04); 3: life-cycle focus (C13/C14)
 pub fn run_lockstep(cfg: &ScenCfg, out: &mut RunOut) {
+    run_lockstep_impl(cfg, out, false)
+}
+
+/// the same workload over the serial (RTU) channel
+pub fn run_lockstep_rtu(cfg: &ScenCfg, out: &mut RunOut) {
+    run_lockstep_impl(cfg, out, true)
+}
+
+pub fn start_rtu_client(baud: u32, retry: (u64, u64), decode: DecodeLevel, qcap: usize) -> ClientRig {
+    let states: StateLog = Arc::new(Mutex::new(Vec::new()));
+    let comps: Completions = Arc::new(Mutex::new(Vec::new()));
+    struct PortListen {
+        log: StateLog,
+    }
+    impl Listener<PortState> for PortListen {
+        fn update(&mut self, value: PortState) -> MaybeAsync<()> {
+            let s = match value {
+                PortState::Disabled => MState::Disabled,
+                PortState::Wait(d) => MState::WaitAfterDisconnect(d.as_nanos() as u64),
+                PortState::Open => MState::Connected,
+                PortState::Shutdown => MState::Shutdown,
+            };
+            self.log.lock().unwrap().push((kernel::now_ns(), s));
+            MaybeAsync::ready(())
+        }
+    }
+    let settings = SerialSettings {
+        baud_rate: baud,
+        ..SerialSettings::default()
+    };
+    let (channel, task) = create_rtu_client_task(
+        RTU_PATH,
+        settings,
+        qcap,
+        doubling_retry_strategy(Duration::from_nanos(retry.0), Duration::from_nanos(retry.1)),
+        decode,
+        Some(Box::new(PortListen { log: states.clone() })),
+    );
+    let task = simtokio::task::spawn_named("rtu-client", task.run());
+    ClientRig {
+        channel: Some(channel),
+        task,
+        states,
+        comps,
+        addr: "0.0.0.0:0".parse().unwrap(),
+    }
+}
+
+pub fn t35_ns(baud: u32) -> u64 {
+    if baud <= 19200 {
+        (11_000_000_000u64 / baud as u64) * 35 / 10
+    } else {
+        1_750_000
+    }
+}
+
+fn run_lockstep_impl(cfg: &ScenCfg, out: &mut RunOut, rtu: bool) {
     lockstep_kernel_cfg();
     let (dec_idx, decode) = pick_decode(&cfg.decode);
     let addr: SocketAddr = "10.0.0.9:502".parse().unwrap();
@@ -597,18 +750,31 @@ pub fn run_lockstep(cfg: &ScenCfg, out: &mut RunOut) {
         3 => Some(3),
         _ => Some(5),
     };
+    // serial channels have no consecutive-timeout limit
+    let max_timeouts = if rtu { None } else { max_timeouts };
+    let baud = [9600u32, 19200, 115200, 1200][choose(4) as usize];
     let qcap = [1usize, 2, 4, 16][choose(4) as usize];
     let opts = ClientOptions::default()
         .decode_level(decode)
         .max_queued_requests(qcap)
         .max_response_timeouts(max_timeouts.and_then(std::num::NonZeroUsize::new));
-    net::stub_listen(addr);
-    let rig = start_tcp_client(addr, (retry_min, retry_max), opts);
-    let model = ClientModel::new(Transport::Tcp, Retry::new(retry_min, retry_max), max_timeouts);
+    let (rig, mut model, link) = if rtu {
+        simtokio::serial::add_line(RTU_PATH, simtokio::serial::OpenOutcome::Ok, true);
+        let rig = start_rtu_client(baud, (retry_min, retry_max), decode, qcap);
+        let mut m = ClientModel::new(Transport::Rtu, Retry::new(retry_min, retry_max), None);
+        m.t35 = t35_ns(baud);
+        (rig, m, Link::Rtu { open: false, opens_seen: 0, closes_seen: 0 })
+    } else {
+        net::stub_listen(addr);
+        let rig = start_tcp_client(addr, (retry_min, retry_max), opts);
+        let m = ClientModel::new(Transport::Tcp, Retry::new(retry_min, retry_max), max_timeouts);
+        (rig, m, Link::Tcp { addr, peer: None })
+    };
+    let _ = &mut model;
     let mut l = Lock {
         rig,
         model,
-        peer: None,
+        link,
         expected_wire: Vec::new(),
         got_wire: Vec::new(),
         seen_states: 0,
@@ -701,7 +867,6 @@ pub fn run_lockstep(cfg: &ScenCfg, out: &mut RunOut) {
             }
             1 => {
                 // peer action
-                let peer = l.peer.as_ref().expect("model connected => peer");
                 let tx = l.model.outstanding_tx();
                 let spec = l.model.outstanding_spec().cloned();
                 let choice = if cfg.variant == 1 {
@@ -716,40 +881,40 @@ pub fn run_lockstep(cfg: &ScenCfg, out: &mut RunOut) {
                         // the correct reply
                         let spec = spec.unwrap();
                         let p = correct_reply(&spec.req);
-                        let f = mbap_frame(tx.unwrap(), spec.unit, &p);
+                        let f = l.mk_frame(tx.unwrap(), spec.unit, &p);
                         if cfg.variant != 1 && chance(1, 4) && f.len() > 8 {
                             // split: first part now, the rest after a pause chosen around the deadline
                             let cut = 1 + choose(f.len() as u32 - 1) as usize;
-                            peer.write(&f[..cut]);
+                            l.send(&f[..cut]);
                             kernel::settle();
                             l.model.peer_bytes(&f[..cut]);
                             let dl = l.model.outstanding_deadline().unwrap();
                             let now = l.model.now;
+                            let rem = dl.saturating_sub(now);
                             let dt = match choose(4) {
-                                0 => (dl - now) / 2,
-                                1 => (dl - now).saturating_sub(1),
-                                2 => dl - now + 1,
+                                0 => rem / 2,
+                                1 => rem.saturating_sub(1),
+                                2 => rem + 1,
                                 _ => 0,
                             };
                             kernel::advance(dt);
                             l.model.advance(dt);
                             let conn_changed = l.model.effects[l.eff_pos..].iter().any(|e| matches!(e, Effect::ConnClosed(_) | Effect::ConnOpened(_)));
-                            if conn_changed || l.peer.is_none() || !l.model.is_connected() {
+                            if conn_changed || !l.model.is_connected() {
                                 desc = format!("split reply cut={} then +{}ns (connection gone)", cut, dt);
                                 l.last_peer_action = "split";
                             } else {
-                                let peer = l.peer.as_ref().unwrap();
-                                peer.write(&f[cut..]);
+                                l.send(&f[cut..]);
                                 kernel::settle();
                                 l.model.peer_bytes(&f[cut..]);
-                                desc = format!("split reply cut={}/{} pause={}ns (deadline was +{}ns)", cut, f.len(), dt, dl - now);
+                                desc = format!("split reply cut={}/{} pause={}ns (deadline was +{}ns)", cut, f.len(), dt, rem);
                                 l.last_peer_action = "split";
-                                if dt > dl - now {
+                                if dt > rem {
                                     out.probe("reply_split_across_deadline");
                                 }
                             }
                         } else {
-                            peer.write(&f);
+                            l.send(&f);
                             kernel::settle();
                             l.model.peer_bytes(&f);
                             desc = format!("reply correct tx={}", tx.unwrap());
@@ -760,8 +925,14 @@ pub fn run_lockstep(cfg: &ScenCfg, out: &mut RunOut) {
                     1 => {
                         let spec = spec.unwrap();
                         let p = gen_reply_pdu(&spec.req);
-                        let f = mbap_frame(tx.unwrap(), spec.unit, &p);
-                        peer.write(&f);
+                        let f = if l.is_rtu() {
+                            // on a serial line the reply must be frameable: known function or exception
+                            let p2 = if crate::model::frame::rtu_body_len(crate::model::frame::RtuDir::Response, &p).ok().flatten() == Some(p.len().saturating_sub(1)) { p.clone() } else { correct_reply(&spec.req) };
+                            l.mk_frame(0, if chance(1, 6) { choose(256) as u8 } else { spec.unit }, &p2)
+                        } else {
+                            l.mk_frame(tx.unwrap(), spec.unit, &p)
+                        };
+                        l.send(&f);
                         kernel::settle();
                         l.model.peer_bytes(&f);
                         desc = format!("reply variant pdu={}", hex(&p[..p.len().min(16)]));
@@ -778,8 +949,8 @@ pub fn run_lockstep(cfg: &ScenCfg, out: &mut RunOut) {
                         };
                         let base = tx.unwrap_or(l.model.tx_id);
                         let p = spec.as_ref().map(|s| correct_reply(&s.req)).unwrap_or(vec![3, 2, 0, 1]);
-                        let f = mbap_frame(base.wrapping_sub(k), spec.as_ref().map(|s| s.unit).unwrap_or(1), &p);
-                        peer.write(&f);
+                        let f = l.mk_frame(base.wrapping_sub(k), spec.as_ref().map(|s| s.unit).unwrap_or(1), &p);
+                        l.send(&f);
                         kernel::settle();
                         l.model.peer_bytes(&f);
                         desc = format!("stale frame tx-{}", k);
@@ -788,9 +959,8 @@ pub fn run_lockstep(cfg: &ScenCfg, out: &mut RunOut) {
                     }
                     3 => {
                         // duplicate of the previous reply
-                        let f = prev_reply.clone().unwrap_or_else(|| mbap_frame(l.model.tx_id.wrapping_sub(1), 1, &[3, 2, 0, 0]));
-                        // never the outstanding tx by construction? it may be, if prev was for this request: then it is simply a reply
-                        peer.write(&f);
+                        let f = prev_reply.clone().unwrap_or_else(|| l.mk_frame(l.model.tx_id.wrapping_sub(1), 1, &[3, 2, 0, 0]));
+                        l.send(&f);
                         kernel::settle();
                         l.model.peer_bytes(&f);
                         desc = "duplicate of previous reply".to_string();
@@ -799,12 +969,30 @@ pub fn run_lockstep(cfg: &ScenCfg, out: &mut RunOut) {
                     }
                     4 => {
                         // invalid MBAP header
-                        let f = match choose(3) {
-                            0 => mbap_frame_raw(tx.unwrap_or(0), 7, 3, 1, &[3, 0]),
-                            1 => mbap_frame_raw(tx.unwrap_or(0), 0, 0, 1, &[]),
-                            _ => mbap_frame_raw(tx.unwrap_or(0), 0, 255 + choose(1000) as u16, 1, &[3, 0]),
+                        let f = if l.is_rtu() {
+                            match choose(3) {
+                                0 => {
+                                    // CRC error
+                                    let mut f = crate::model::frame::rtu_frame(1, &[3, 2, 0, 7]);
+                                    let n = f.len();
+                                    f[n - 1 - choose(2) as usize] ^= 1 << choose(8);
+                                    f
+                                }
+                                1 => crate::model::frame::rtu_frame(1, &[[0u8, 7, 20, 43][choose(4) as usize], 0, 0]),
+                                _ => {
+                                    let mut f = crate::model::frame::rtu_frame(1, &[3, 2, 0, 7]);
+                                    f[3] ^= 0x10;
+                                    f
+                                }
+                            }
+                        } else {
+                            match choose(3) {
+                                0 => mbap_frame_raw(tx.unwrap_or(0), 7, 3, 1, &[3, 0]),
+                                1 => mbap_frame_raw(tx.unwrap_or(0), 0, 0, 1, &[]),
+                                _ => mbap_frame_raw(tx.unwrap_or(0), 0, 255 + choose(1000) as u16, 1, &[3, 0]),
+                            }
                         };
-                        peer.write(&f);
+                        l.send(&f);
                         kernel::settle();
                         l.model.peer_bytes(&f);
                         desc = "invalid MBAP header".to_string();
@@ -813,16 +1001,26 @@ pub fn run_lockstep(cfg: &ScenCfg, out: &mut RunOut) {
                     }
                     5 => {
                         // peer closes
-                        l.peer.as_mut().unwrap().shutdown_write();
-                        kernel::settle();
-                        l.model.peer_eof(None);
-                        desc = "peer closes (EOF)".to_string();
+                        if let Link::Tcp { peer, .. } = &l.link {
+                            peer.as_ref().unwrap().shutdown_write();
+                            kernel::settle();
+                            l.model.peer_eof(None);
+                            desc = "peer closes (EOF)".to_string();
+                        } else {
+                            simtokio::serial::inject_port_lost(RTU_PATH, std::io::ErrorKind::BrokenPipe);
+                            kernel::settle();
+                            l.model.peer_eof(Some("BrokenPipe".into()));
+                            desc = "port lost (BrokenPipe)".to_string();
+                        }
                         l.last_peer_action = "eof";
                         kernel::count("fault_eof");
                     }
                     6 => {
                         let kind = [std::io::ErrorKind::ConnectionReset, std::io::ErrorKind::ConnectionAborted, std::io::ErrorKind::TimedOut, std::io::ErrorKind::Other][choose(4) as usize];
-                        peer.inject_read_error(0, kind);
+                        match &l.link {
+                            Link::Tcp { peer, .. } => peer.as_ref().unwrap().inject_read_error(0, kind),
+                            Link::Rtu { .. } => simtokio::serial::inject_port_lost(RTU_PATH, kind),
+                        }
                         kernel::settle();
                         l.model.peer_eof(Some(format!("{:?}", kind)));
                         desc = format!("read error {:?}", kind);
@@ -833,10 +1031,10 @@ pub fn run_lockstep(cfg: &ScenCfg, out: &mut RunOut) {
                         let base = tx.unwrap_or(l.model.tx_id);
                         let k = if outstanding { 1 + choose(100) as u16 } else { choose(3) as u16 };
                         let use_tx = if outstanding || l.model.queued() > 0 { base.wrapping_add(k) } else { base.wrapping_add(k) };
-                        let f = mbap_frame(use_tx, 1, &[3, 2, 0xAB, 0xCD]);
+                        let f = l.mk_frame(use_tx, 1, &[3, 2, 0xAB, 0xCD]);
                         // a frame carrying the *next* id while idle would race with the next submit only
                         // if a command were queued; in lock-step the queue is empty at this point
-                        peer.write(&f);
+                        l.send(&f);
                         kernel::settle();
                         l.model.peer_bytes(&f);
                         desc = format!("unsolicited/future frame tx={}", use_tx);
@@ -846,9 +1044,13 @@ pub fn run_lockstep(cfg: &ScenCfg, out: &mut RunOut) {
                     _ => {
                         // the next write by the client fails
                         let kind = [std::io::ErrorKind::BrokenPipe, std::io::ErrorKind::ConnectionReset][choose(2) as usize];
-                        peer.inject_write_error(0, kind);
-                        l.model.set_write_error(format!("{:?}", kind));
-                        desc = format!("arm write error {:?}", kind);
+                        if let Link::Tcp { peer, .. } = &l.link {
+                            peer.as_ref().unwrap().inject_write_error(0, kind);
+                            l.model.set_write_error(format!("{:?}", kind));
+                            desc = format!("arm write error {:?}", kind);
+                        } else {
+                            desc = "noop".into();
+                        }
                         l.last_peer_action = "write_error";
                     }
                 }
@@ -930,7 +1132,12 @@ pub fn run_lockstep(cfg: &ScenCfg, out: &mut RunOut) {
                 // environment
                 match choose(3) {
                     0 => {
-                        if l.model.server_up {
+                        if rtu {
+                            simtokio::serial::set_default_outcome(
+                                RTU_PATH,
+                                if l.model.server_up { simtokio::serial::OpenOutcome::NoDevice } else { simtokio::serial::OpenOutcome::Ok },
+                            );
+                        } else if l.model.server_up {
                             net::stub_unlisten(addr);
                         } else {
                             net::stub_listen(addr);
@@ -938,7 +1145,7 @@ pub fn run_lockstep(cfg: &ScenCfg, out: &mut RunOut) {
                         l.model.server_up = !l.model.server_up;
                         desc = format!("server_up={}", l.model.server_up);
                     }
-                    1 => {
+                    1 if !rtu => {
                         let d = [1 * MS, 20 * MS, 3000 * MS][choose(3) as usize];
                         let accept = chance(1, 2);
                         net::plan_connect(
@@ -952,7 +1159,11 @@ pub fn run_lockstep(cfg: &ScenCfg, out: &mut RunOut) {
                         desc = format!("plan slow connect {}ms accept={}", d / MS, accept);
                     }
                     _ => {
-                        net::plan_connect(addr, net::ConnectOutcome::Refused);
+                        if rtu {
+                            simtokio::serial::plan_open(RTU_PATH, simtokio::serial::OpenOutcome::NoDevice);
+                        } else {
+                            net::plan_connect(addr, net::ConnectOutcome::Refused);
+                        }
                         l.model.plans.push_back(Plan::Refuse);
                         desc = "plan refused connect".into();
                     }
@@ -1014,7 +1225,7 @@ pub fn run_lockstep(cfg: &ScenCfg, out: &mut RunOut) {
         out.probe("txid_wrap");
     }
     out.nontrivial = if out.ops_checked > 0 { Some(wl_hash ^ (trace.len() as u64) << 50) } else { None };
-    out.sample = Some(json!({"scenario": "tcp client lock-step", "variant": cfg.variant, "decode_level_index": dec_idx,
+    out.sample = Some(json!({"scenario": if rtu { "rtu client lock-step" } else { "tcp client lock-step" }, "variant": cfg.variant, "decode_level_index": dec_idx,
         "max_timeouts": max_timeouts, "queue_capacity": qcap, "retry_min_ms": retry_min / MS, "retry_max_ms": retry_max / MS,
         "actions": trace.iter().take(40).collect::<Vec<_>>()}));
     out.observable.extend(format!("{:?}{:?}", l.rig.comps.lock().unwrap(), l.rig.states.lock().unwrap()).into_bytes());
